@@ -525,12 +525,30 @@ func runFrames(c *Case, r *mon.Rec) {
 		checkTrailer(c, r, "exception", e.Bytes())
 		// the sendable parse errors: the ones the library's own RTU request parsers hand to a server for an
 		// out-of-range request, and the constructor a server uses for its own catch-all replies
-		bad := specref.Req{FC: fc, Unit: q.Unit, Addr: q.Addr}
-		if rfr := bad.Encode(specref.RTU); rfr != nil {
+		bads := []specref.Req{{FC: fc, Unit: q.Unit, Addr: q.Addr}}
+		switch fc {
+		case 1, 2:
+			bads = append(bads, specref.Req{FC: fc, Unit: q.Unit, Addr: q.Addr, Qty: 2001})
+		case 3, 4:
+			bads = append(bads, specref.Req{FC: fc, Unit: q.Unit, Addr: q.Addr, Qty: 126})
+		case 5:
+			bads = append(bads, specref.Req{FC: fc, Unit: q.Unit, Addr: q.Addr, Value: 0x1234})
+		case 23:
+			// every refusal branch of its own: read quantity, then write quantity (read quantity in range)
+			bads = append(bads, specref.Req{FC: 23, Unit: q.Unit, Addr: q.Addr, Qty: 126, WAddr: 1, WQty: 1, Data: []byte{0, 1}},
+				specref.Req{FC: 23, Unit: q.Unit, Addr: q.Addr, Qty: 3, WAddr: 1, WQty: 0},
+				specref.Req{FC: 23, Unit: q.Unit, Addr: q.Addr, Qty: 3, WAddr: 1, WQty: 122, Data: libx.RandBytes(rng, 244)})
+		}
+		for _, bad := range bads {
+			rfr := bad.Encode(specref.RTU)
+			if rfr == nil {
+				continue
+			}
 			_, perr := packet.ParseRTURequestWithCRC(rfr)
-			var pe *packet.ErrorParseRTU
-			if errors.As(perr, &pe) {
-				checkTrailer(c, r, "parse-error-from-parser", pe.Bytes())
+			// whatever sendable error the RTU parsers hand back (anything with a Bytes() method is what a server puts on
+			// the serial line): an RTU frame, i.e. ending with the CRC of what precedes it
+			if se, ok := perr.(interface{ Bytes() []byte }); ok && !libx.IsNilValue(perr) {
+				checkTrailer(c, r, "parse-error-from-parser", se.Bytes())
 				r.Cover("parse-error-emitter", fmt.Sprintf("parser-fc%d", fc))
 			}
 		}
